@@ -518,6 +518,30 @@ def build_unit(template_path, repo_root, vacuity=False):
                 emit_segs(vsegs, S2, label + '__vac', opts.get('tag', ''))
             fns.append(dict(name=name, label=label, container=container, file=rel, tag=opts.get('tag', ''),
                             novac=bool(opts.get('novac'))))
+        elif d == 'CONSTLEN':
+            # rule E4: length of a byte-string literal constant `const NAME: &[u8] = b"...";` computed from the source text
+            rel, name = parts[0], parts[1]
+            S = ex.src(rel)
+            start, head, end = S.find_item('const', name)
+            raw = S.text[start:end]
+            m = re.search(r'=\s*b"((?:[^"\\]|\\.)*)"\s*;', raw)
+            if not m:
+                raise ExtractError(f'{rel}: const {name} is not a byte-string literal')
+            lit = m.group(1)
+            n = len(re.sub(r'\\(x[0-9a-fA-F]{2}|.)', 'X', lit))
+            out_lines.append(f'pub const {name}_LEN: usize = {n};   // length of the literal at {rel}:{S.line_of(start)}')
+            table.append(dict(kind='tmpl', line=i + 1))
+            ex.records.append(dict(kind='constlen', name=name, file=rel, lines=[S.line_of(start), S.line_of(end - 1)],
+                                   sha256=hashlib.sha256(raw.encode()).hexdigest(), rules=[('E4', 'byte-string literal length', str(n))]))
+            i += 1
+        elif d == 'ABSENT':
+            # anchor: the unit's model of "what the tracker validates at start-up" is only right while this text is absent
+            rel, rx = parts[0], '|'.join(parts[1:])
+            S = ex.src(rel)
+            if re.search(rx, S.m):
+                raise ExtractError(f'{rel}: anchor `{rx}` is now present; the unit {os.path.basename(template_path)} must be revised (undecided, not a violation)')
+            ex.records.append(dict(kind='absent-anchor', name=rx, file=rel, lines=[0, 0], sha256='', rules=[('A1', 'anchor absent', rx)]))
+            i += 1
         else:
             raise ExtractError(f'{template_path}:{i+1}: unknown directive {d}')
     return '\n'.join(out_lines) + '\n', table, ex.records, fns
